@@ -35,6 +35,7 @@ type harnessCfg struct {
 	MaxPaths  int
 	Thorough  bool   // only run in the thorough tier
 	NoNative  bool   // counterexamples are confirmed by concrete re-execution of the SSA only
+	NoCross   bool   // thorough tier: do not cross-check every z3 answer on cvc5 (measured not to finish)
 	NoWitness string // reason why complete-path witnesses cannot be run natively (engine-level library models)
 	Bounds    string
 }
@@ -385,6 +386,8 @@ func harnessConfigs(p *packages.Package, pkg *ssa.Package) []harnessCfg {
 						c.Thorough = true
 					case "nonative":
 						c.NoNative = true
+					case "nocross":
+						c.NoCross = true
 					case "nowitness":
 						c.NoWitness = arg
 					case "bounds":
@@ -414,7 +417,7 @@ func runHarness(prog *ssa.Program, pkg *ssa.Package, c harnessCfg, thorough bool
 	if thorough {
 		softC = 180000
 	}
-	sol, err := NewPortfolio(soft, softC, thorough && fixed == nil)
+	sol, err := NewPortfolio(soft, softC, thorough && fixed == nil && !c.NoCross)
 	if err != nil {
 		panic(err)
 	}
